@@ -636,6 +636,7 @@ type scenario struct {
 	serial    uint32
 	segSeed   uint64
 	msgKind   string // stores.go: what the peer sends ("" = signed with its key)
+	qExtra    []dns.RR // counts.go: additional records of the request (in front of the TSIG)
 }
 
 const xfrZone = "xfr.example."
@@ -684,6 +685,9 @@ func (s *scenario) query() *dns.Msg {
 		q.SetQuestion("www."+xfrZone, dns.TypeA)
 	}
 	q.Id = s.qid
+	for _, rr := range s.qExtra {
+		q.Extra = append(q.Extra, dns.Copy(rr))
+	}
 	if s.signQuery {
 		q.SetTsig(s.k.key, s.alg.name, s.fudge, int64(s.now))
 	}
@@ -1377,6 +1381,13 @@ func serveQueries(udp bool, envs [][]byte, keys *sessKeys, outEnvs int) (map[uin
 		m := new(dns.Msg)
 		m.SetReply(req)
 		m.Answer = append(m.Answer, &dns.A{Hdr: dns.RR_Header{Name: req.Question[0].Name, Rrtype: dns.TypeA, Class: dns.ClassINET, Ttl: 5}, A: []byte{192, 0, 2, 7}})
+		// the additional records of the query (TSIG aside) come back in the response, so
+		// that the response's additional count follows the query's (counts.go)
+		for _, rr := range req.Extra {
+			if rr.Header().Rrtype != dns.TypeTSIG {
+				m.Extra = append(m.Extra, dns.Copy(rr))
+			}
+		}
 		if verified {
 			t := req.IsTsig()
 			m.SetTsig(t.Hdr.Name, t.Algorithm, t.Fudge, time.Now().Unix())
@@ -1385,6 +1396,10 @@ func serveQueries(udp bool, envs [][]byte, keys *sessKeys, outEnvs int) (map[uin
 	})
 	srv := &dns.Server{Handler: handler, ReadTimeout: longIO, WriteTimeout: longIO, IdleTimeout: func() time.Duration { return longIO }}
 	keys.configure(&srv.TsigSecret, &srv.TsigProvider)
+	if srvQueryExtra != nil {
+		// the default MsgAcceptFunc answers FORMERR to a query with more than two additional records
+		srv.MsgAcceptFunc = func(dns.Header) dns.MsgAcceptAction { return dns.MsgAccept }
+	}
 	var written [][]byte
 	done := make(chan error, 1)
 	if udp {
@@ -1431,6 +1446,9 @@ func serveQueries(udp bool, envs [][]byte, keys *sessKeys, outEnvs int) (map[uin
 	return recs, written, true
 }
 
+// srvQueryExtra, when set (counts.go), supplies the additional section of query i.
+var srvQueryExtra func(i int) []dns.RR
+
 // runServer feeds nq queries (one tampered, at position k) to a real dns.Server
 // over a scripted TCP connection or UDP socket and checks TsigStatus for each
 // and the signatures of what the server wrote back.
@@ -1454,7 +1472,9 @@ func runServer(r *Rng, udp bool, nq int, provider bool, tm *tamper, k int, quota
 		}
 		q.Id = uint16(1000 + i)
 		q.Compress = r.Bool()
-		if r.Intn(3) == 0 {
+		if srvQueryExtra != nil {
+			q.Extra = srvQueryExtra(i)
+		} else if r.Intn(3) == 0 {
 			q.Extra = append(q.Extra, genRR(r, true))
 		}
 		c.msgs = append(c.msgs, q)
